@@ -3,6 +3,7 @@
   inside the envelope, and the decoding of its base fields.
 -/
 import ApiFu.C20.LemLevel2
+import ApiFu.C20.LemHolders2
 
 namespace ApiFu.C20
 
@@ -10,26 +11,42 @@ variable {S : Schema} {ft : List (Name × Name)} {env : List Decl}
   {frag : Name → Name → List JMember → Option (List LeafAt)} {td : TypeDef}
   {sels : List Sel} {es : List FieldEntry}
 
-theorem keysNodup_fst (h : keysNodup td sels = true) : (sels.map fun s => fieldName (memberKey td s)).Nodup := by
+/-- Since fix 06: distinct field names and distinct fragment identities give distinct Go names for
+    all members, holders included. -/
+theorem keysNodup_fst (h : keysNodup td sels = true) : (sels.map fun s => fieldName (memberKey (holderTable td.name sels) td s)).Nodup := by
   simp only [keysNodup, Bool.and_eq_true] at h
-  exact (nodupB_iff _).mp h.1
+  exact holders_distinct td sels ((nodupB_iff _).mp h.1.1) ((nodupB_iff _).mp h.1.2)
+
+theorem memberKey_field_tbl (tbl tbl' : HolderTable) (td : TypeDef) {s : Sel} (h : isFieldSel s = true) :
+    memberKey tbl td s = memberKey tbl' td s := by
+  cases s with
+  | field a n ss => rfl
+  | inline c ss => simp [isFieldSel] at h
+  | spread f => simp [isFieldSel] at h
 
 theorem keysNodup_snd (h : keysNodup td sels = true) :
-    ((sels.filter isFieldSel).map fun s => lowerAll (memberKey td s)).Nodup := by
+    ((sels.filter isFieldSel).map fun s => lowerAll (memberKey (holderTable td.name sels) td s)).Nodup := by
   simp only [keysNodup, Bool.and_eq_true] at h
-  exact (nodupB_iff _).mp h.2
+  have := (nodupB_iff _).mp h.2
+  have heq : ((sels.filter isFieldSel).map fun s => lowerAll (memberKey (holderTable td.name sels) td s)) =
+      ((sels.filter isFieldSel).map fun s => lowerAll (memberKey [] td s)) := by
+    apply List.map_congr_left
+    intro s hs
+    rw [memberKey_field_tbl _ [] td (List.mem_filter.mp hs).2]
+  rw [heq]
+  exact this
 
 theorem sels_inj (h : keysNodup td sels = true) :
-    ∀ s1 ∈ sels, ∀ s2 ∈ sels, fieldName (memberKey td s1) = fieldName (memberKey td s2) → s1 = s2 :=
-  inj_of_nodup_map (fun s => fieldName (memberKey td s)) (keysNodup_fst h)
+    ∀ s1 ∈ sels, ∀ s2 ∈ sels, fieldName (memberKey (holderTable td.name sels) td s1) = fieldName (memberKey (holderTable td.name sels) td s2) → s1 = s2 :=
+  inj_of_nodup_map (fun s => fieldName (memberKey (holderTable td.name sels) td s)) (keysNodup_fst h)
 
-theorem es_inj (hmem : Forall2 (MemberGood S env frag td) sels es) (h : keysNodup td sels = true) :
+theorem es_inj (hmem : Forall2 (MemberGood S env frag (holderTable td.name sels) td) sels es) (h : keysNodup td sels = true) :
     ∀ e1 ∈ es, ∀ e2 ∈ es, fieldName e1.key = fieldName e2.key → e1 = e2 := by
   apply inj_of_nodup_map (fun e : FieldEntry => fieldName e.key)
   rw [forall2_keys hmem]
   exact keysNodup_fst h
 
-theorem goFields_names_nodup (hmem : Forall2 (MemberGood S env frag td) sels es) (h : keysNodup td sels = true) :
+theorem goFields_names_nodup (hmem : Forall2 (MemberGood S env frag (holderTable td.name sels) td) sels es) (h : keysNodup td sels = true) :
     ((es.map toGoField).map GoField.name).Nodup := by
   have : (es.map toGoField).map GoField.name = es.map (fun e => fieldName e.key) := by
     simp [List.map_map, Function.comp_def, toGoField_name]
@@ -42,15 +59,15 @@ theorem mem_fs_iff {g : GoField} : g ∈ sortFields (es.map toGoField) ↔ ∃ e
   · rintro ⟨e, he, rfl⟩; exact ⟨e, he, rfl⟩
   · rintro ⟨e, he, rfl⟩; exact ⟨e, he, rfl⟩
 
-theorem fs_nameInj (hmem : Forall2 (MemberGood S env frag td) sels es) (h : keysNodup td sels = true) :
+theorem fs_nameInj (hmem : Forall2 (MemberGood S env frag (holderTable td.name sels) td) sels es) (h : keysNodup td sels = true) :
     NameInj (sortFields (es.map toGoField)) := by
   apply nameInj_of_nodup
   exact ((sortFields_perm _).map GoField.name).nodup_iff.mpr (goFields_names_nodup hmem h)
 
 /-- A member whose entry is not a `json:"-"` holder is a field selection with an admissible key. -/
-theorem field_of_not_dash (hmem : Forall2 (MemberGood S env frag td) sels es) (hok : membersOK S ft td sels = true)
+theorem field_of_not_dash (hmem : Forall2 (MemberGood S env frag (holderTable td.name sels) td) sels es) (hok : membersOK S ft td sels = true)
     {e : FieldEntry} (he : e ∈ es) (hd : e.dash = false) :
-    ∃ s ∈ sels, isFieldSel s = true ∧ e.key = memberKey td s ∧ keyOK e.key = true ∧ MemberGood S env frag td s e := by
+    ∃ s ∈ sels, isFieldSel s = true ∧ e.key = memberKey (holderTable td.name sels) td s ∧ keyOK e.key = true ∧ MemberGood S env frag (holderTable td.name sels) td s e := by
   obtain ⟨s, hs, hg⟩ := Forall2.mem_right hmem e he
   have hsel := membersOK_mem hok s hs
   cases s with
@@ -68,7 +85,7 @@ theorem field_of_not_dash (hmem : Forall2 (MemberGood S env frag td) sels es) (h
     rw [hd] at this
     cases this
 
-theorem fs_foldInj (hmem : Forall2 (MemberGood S env frag td) sels es) (hok : setOK S ft td sels = true) :
+theorem fs_foldInj (hmem : Forall2 (MemberGood S env frag (holderTable td.name sels) td) sels es) (hok : setOK S ft td sels = true) :
     FoldInj (sortFields (es.map toGoField)) := by
   simp only [setOK, Bool.and_eq_true] at hok
   obtain ⟨hmok, hnd⟩ := hok
@@ -92,10 +109,10 @@ theorem fs_foldInj (hmem : Forall2 (MemberGood S env frag td) sels es) (hok : se
   injection ha with ha
   injection hb with hb
   subst ha hb
-  have hlow : lowerAll (memberKey td s1) = lowerAll (memberKey td s2) := by
+  have hlow : lowerAll (memberKey (holderTable td.name sels) td s1) = lowerAll (memberKey (holderTable td.name sels) td s2) := by
     rw [← hk1, ← hk2, ← hl1, ← hl2, hab]
   have hs12 : s1 = s2 :=
-    inj_of_nodup_map (fun s => lowerAll (memberKey td s)) (keysNodup_snd hnd) s1
+    inj_of_nodup_map (fun s => lowerAll (memberKey (holderTable td.name sels) td s)) (keysNodup_snd hnd) s1
       (List.mem_filter.mpr ⟨hs1, hf1⟩) s2 (List.mem_filter.mpr ⟨hs2, hf2⟩) hlow
   subst hs12
   have : e1 = e2 := es_inj hmem hnd e1 he1 e2 he2 (by rw [hk1, hk2])
@@ -107,12 +124,12 @@ def BaseRel (S : Schema) (env : List Decl) (frag : Name → Name → List JMembe
     (g : GoField) (vf : GoValField) : Prop :=
   FieldDecodes env fs kvs g vf ∧ vf.name = g.name ∧ vf.tag = g.tag ∧
   (jsonNameOf g = none → vf.val = .nil) ∧
-  (∀ s ∈ sels, isFieldSel s = true → g.name = fieldName (memberKey td s) →
+  (∀ s ∈ sels, isFieldSel s = true → g.name = fieldName (memberKey (holderTable td.name sels) td s) →
     ∀ Ls, selLeavesSel S frag T td kvs s = some Ls → ∀ x ∈ Ls, x ∈ leavesVFields [vf]) ∧
   (∀ alias subs, Sel.field alias n_typename subs ∈ sels → g.name = fieldName (alias.getD n_typename) →
     vf.val = .str T)
 
-theorem base_exists (hmem : Forall2 (MemberGood S env frag td) sels es) (hok : setOK S ft td sels = true)
+theorem base_exists (hmem : Forall2 (MemberGood S env frag (holderTable td.name sels) td) sels es) (hok : setOK S ft td sels = true)
     {T : Name} {kvs : List JMember} {L : List LeafAt}
     (hL : selLeavesSels S frag T td kvs sels = some L)
     (hkd : keysFoldDistinct kvs = true) (hko : keysOKMembers kvs = true) :
@@ -172,7 +189,7 @@ theorem base_exists (hmem : Forall2 (MemberGood S env frag td) sels es) (hok : s
         have hlast : lastFor (sortFields (es.map toGoField)) (toGoField e).name kvs = some v :=
           lastFor_of_lookup hfold hname hg hjn (by rw [hlow, hkey']) hkd hlook
         -- every field selection with this Go name is this one
-        have huniq : ∀ s' ∈ sels, (toGoField e).name = fieldName (memberKey td s') → s' = Sel.field alias name subs := by
+        have huniq : ∀ s' ∈ sels, (toGoField e).name = fieldName (memberKey (holderTable td.name sels) td s') → s' = Sel.field alias name subs := by
           intro s' hs' hn'
           exact sels_inj hnd s' hs' _ hs (by rw [← hn', toGoField_name, hkey]; )
         by_cases hn : name = n_typename
